@@ -3,12 +3,15 @@
 # runs the check of its property (must exit 0: no false alarm), undoes it.
 cd /repo || exit 2
 if ! git diff --quiet; then echo "repo dirty"; exit 2; fi
-names="$@"; [ -z "$names" ] && names=$(ls /verif/refactorings)
+names="$@"; full=0; [ -z "$names" ] && { names=$(ls /verif/refactorings); full=1; }
+res=$(mktemp)
 for n in $names; do
   d=/verif/refactorings/$n; p=${n%%-*}
   if ! git apply "$d/patch.diff" 2>/tmp/apply.err; then echo "$n APPLY-FAILED $(head -1 /tmp/apply.err)"; git checkout -q -- .; continue; fi
   if ! (GOFLAGS=-mod=mod GOPROXY=off GOSUMDB=off GOTOOLCHAIN=local GOWORK=off go test -vet=off -count=1 ./... >/tmp/rt.out 2>&1); then echo "$n PINNED-TESTS-FAIL"; git checkout -q -- .; git clean -fdq; continue; fi
   out=$(cd /verif && ./bin/gdsa check $p 2>&1); rc=$?
-  if [ $rc -eq 0 ]; then echo "$n silent (ok)"; else echo "$n FALSE-ALARM: $(echo "$out" | grep '^  ' | head -${RLINES:-2} | cut -c1-300)"; fi
+  if [ $rc -eq 0 ]; then echo "$n silent (ok)" | tee -a $res; else echo "$n FALSE-ALARM: $(echo "$out" | grep '^  ' | head -${RLINES:-1} | cut -c1-300)" | tee -a $res; fi
   git checkout -q -- . ; git clean -fdq
 done
+[ $full -eq 1 ] && cp $res /verif/tools/refactest.last
+rm -f $res
